@@ -178,7 +178,7 @@ def lifecycle(run):
     def fx(i, b):
         return {'op': 'SetFixed', 'idx': i, 'flag': b, 'q': '-', 'target': 0, 'maxIter': 0, 'fixFirst': False, 'verbose': False, 'tol': '-'}
     rl = {'op': 'Reload', 'q': '-', 'target': 0, 'maxIter': 0, 'fixFirst': False, 'verbose': False, 'tol': '-', 'idx': 0, 'flag': False}
-    names = ['se2plain', 'se2plainc', 'se3reg', 'se3regc', 'se2', 'se3', 'se2c', 'se3c', 'mixed', 'se2fix', 'se3fix', 'r2', 'r3', 'r2c', 'se2big', 'se2weighted', 'se2alias', 'se2shared']
+    names = ['se2plain', 'se2plainc', 'se3reg', 'se3regc', 'se2plainids', 'se3idsreg', 'se2', 'se3', 'se2c', 'se3c', 'mixed', 'se2fix', 'se3fix', 'r2', 'r3', 'r2c', 'se2big', 'se2weighted', 'se2alias', 'se2shared']
     behaviours = []
     for n in names:
         behaviours += [(n, [rl, q('calc_chi2'), rl]), (n, [opt(2), rl, opt(3), q('to_g2o'), rl, opt(1, '0', False)]),
